@@ -21,40 +21,111 @@
 package atree
 
 //@ # ---------------------------------------------------------------- encoders: bytes written = reported size (C06)
-//@ # wbytes: number of bytes handed to the encoder's writer / CBOR stream so far (ghost event counter)
-//@ # xbytes: the part of wbytes written by the extra-data encoders (root extra data, shared inlined extra data); the property does
-//@ #         not count these sections
-//@ ghost wbytes : int
+//@ # wc[w]  : number of bytes handed so far to the sink w (the io.Writer an Encoder writes to, directly or through its CBOR stream);
+//@ #          for a pooled bytes.Buffer it is the length of its content (getBuffer hands out an empty buffer)
+//@ # sinkOf : the writer a CBOR stream encoder was created on
+//@ # xbytes : the part written by the extra-data encoders (root extra data, shared inlined extra data); not counted by the property
+//@ ghost wc : map[ref]int
+//@ ghost sinkOf : fn(se ref) ref
 //@ ghost xbytes : int
 
+//@ # an encoder is well formed when its CBOR stream writes to its own writer
+//@ pred encWF(enc *Encoder) = enc != nil && enc.Writer != nil && enc.CBOR != nil && sinkOf(enc.CBOR) == enc.Writer
+
 //@ iface Writer.Write(p) (n, err)
-//@   ghostdef wbytes == old(wbytes) + ite(err == nil, len(p), 0)
+//@   ghostdef err == nil ==> wc == upd(old(wc), recv, old(wc)[recv] + len(p))
+//@   ghostdef err != nil ==> (forall w ref :: w != recv ==> wc[w] == old(wc)[w])
 //@   ensures err == nil ==> n == len(p)
-//@   modifies ghost.wbytes, alloc
+//@   modifies ghost.wc, alloc
+
+//@ extern cbor.StreamEncoder.EncodeRawBytes(b) (err)
+//@   ghostdef err == nil ==> wc == upd(old(wc), sinkOf(recv), old(wc)[sinkOf(recv)] + len(b))
+//@   ghostdef err != nil ==> (forall w ref :: w != sinkOf(recv) ==> wc[w] == old(wc)[w])
+//@   modifies ghost.wc, alloc
+
+//@ extern cbor.StreamEncoder.Flush() (err)
+//@   modifies alloc
+
+//@ iface EncMode.NewStreamEncoder(w) (se)
+//@   ensures se != nil && fresh(se) && sinkOf(se) == w
+//@   modifies alloc
+
+//@ func NewEncoder(w, encMode) (enc)  serves C06
+//@   requires w != nil && encMode != nil
+//@   ensures enc != nil && fresh(enc) && enc.Writer == w && encWF(enc) && enc._inlinedExtraData == nil
+//@   modifies alloc
+
+//@ func getBuffer() (b)  serves C06
+//@   trusted "the pool hands out reset buffers (putBuffer resets before returning a buffer to the pool; New creates an empty one)"
+//@   ensures b != nil && wc[iface(b)] == 0 && (forall e *Encoder :: {e.Writer} allocated(e) ==> e.Writer != iface(b))
+//@   modifies alloc
+
+//@ extern bytes.Buffer.Bytes() (r)
+//@   ensures len(r) == wc[iface(recv)]
+//@   pure
+
+//@ func (id SlabID) ToRawBytes(b) (n, err)  serves C06
+//@   ensures len(b) >= 16 ==> err == nil && n == 16
+//@   ensures len(b) < 16 ==> err != nil && n == 0
+//@   modifies alloc
+
+//@ # a storable writes exactly the number of bytes it reports (assumed for caller-supplied storables; this is what "size" means)
+//@ iface Storable.Encode(enc) (err)
+//@   ghostdef err == nil ==> wc == upd(old(wc), enc.Writer, old(wc)[enc.Writer] + bs(recv))
+//@   ghostdef err != nil ==> (forall w ref :: w != enc.Writer ==> wc[w] == old(wc)[w])
+//@   modifies ghost.wc, Encoder._inlinedExtraData, InlinedExtraData.*, alloc
 
 //@ # extra-data sections: whatever they write is counted as extra-data bytes
 //@ func (a *ArrayExtraData) Encode(enc, encodeTypeInfo) (err)  serves C06
 //@   trusted "definition of the counter xbytes: every byte written by an extra-data encoder is an extra-data byte"
-//@   ghostdef wbytes - old(wbytes) == xbytes - old(xbytes)
-//@   modifies ghost.wbytes, ghost.xbytes, alloc
+//@   ghostdef wc[enc.Writer] - old(wc)[enc.Writer] == xbytes - old(xbytes) && (forall w ref :: w != enc.Writer ==> wc[w] == old(wc)[w])
+//@   modifies ghost.wc, ghost.xbytes, alloc
 
 //@ func (m *MapExtraData) Encode(enc, encodeTypeInfo) (err)  serves C06
 //@   trusted "definition of the counter xbytes: every byte written by an extra-data encoder is an extra-data byte"
-//@   ghostdef wbytes - old(wbytes) == xbytes - old(xbytes)
-//@   modifies ghost.wbytes, ghost.xbytes, alloc
+//@   ghostdef wc[enc.Writer] - old(wc)[enc.Writer] == xbytes - old(xbytes) && (forall w ref :: w != enc.Writer ==> wc[w] == old(wc)[w])
+//@   modifies ghost.wc, ghost.xbytes, alloc
+
+//@ func (ied *InlinedExtraData) Encode(enc) (err)  serves C06
+//@   trusted "definition of the counter xbytes: every byte written by an extra-data encoder is an extra-data byte"
+//@   ghostdef wc[enc.Writer] - old(wc)[enc.Writer] == xbytes - old(xbytes) && (forall w ref :: w != enc.Writer ==> wc[w] == old(wc)[w])
+//@   modifies ghost.wc, ghost.xbytes, alloc
+
+//@ pred written(enc *Encoder) = wc[enc.Writer] - old(wc)[enc.Writer] - (xbytes - old(xbytes))
 
 //@ # array index slab: 2 (head) + 8 (address) + 2 (child count) + 14 per child = header.size; plus the extra-data section when root
 //@ func (a *ArrayMetaDataSlab) Encode@bytes(enc) (err)  serves C06
-//@   requires enc != nil && a.header.size == 12 + 14 * len(a.childrenHeaders)
+//@   requires enc != nil && enc.Writer != nil && a.header.size == 12 + 14 * len(a.childrenHeaders)
 //@   assume a.header.size <= 65535 && (forall k :: 0 <= k && k < len(a.childrenHeaders) ==> a.childrenHeaders[k].size <= 65535) because "slab sizes are bounded by the slab size limit (C05), which fits 16 bits"
-//@   ensures[C06] err == nil ==> (wbytes - old(wbytes)) - (xbytes - old(xbytes)) == a.header.size
-//@   modifies Encoder.Scratch, ghost.wbytes, ghost.xbytes, alloc
-//@   loop 1: invariant wbytes - old(wbytes) - (xbytes - old(xbytes)) == 12 + 14 * i && 0 <= i && i <= len(a.childrenHeaders)
+//@   ensures[C06] err == nil ==> written(enc) == a.header.size
+//@   modifies Encoder.Scratch, ghost.wc, ghost.xbytes, alloc
+//@   loop 1: invariant written(enc) == 12 + 14 * i && 0 <= i && i <= len(a.childrenHeaders)
 
 //@ # map index slab: 2 + 8 + 2 + 18 per child
 //@ func (m *MapMetaDataSlab) Encode@bytes(enc) (err)  serves C06
-//@   requires enc != nil && m.header.size == 12 + 18 * len(m.childrenHeaders)
+//@   requires enc != nil && enc.Writer != nil && m.header.size == 12 + 18 * len(m.childrenHeaders)
 //@   assume m.header.size <= 65535 && (forall k :: 0 <= k && k < len(m.childrenHeaders) ==> m.childrenHeaders[k].size <= 65535) because "slab sizes are bounded by the slab size limit (C05), which fits 16 bits"
-//@   ensures[C06] err == nil ==> (wbytes - old(wbytes)) - (xbytes - old(xbytes)) == m.header.size
-//@   modifies Encoder.Scratch, ghost.wbytes, ghost.xbytes, alloc
-//@   loop 1: invariant wbytes - old(wbytes) - (xbytes - old(xbytes)) == 12 + 18 * i && 0 <= i && i <= len(m.childrenHeaders)
+//@   ensures[C06] err == nil ==> written(enc) == m.header.size
+//@   modifies Encoder.Scratch, ghost.wc, ghost.xbytes, alloc
+//@   loop 1: invariant written(enc) == 12 + 18 * i && 0 <= i && i <= len(m.childrenHeaders)
+
+//@ # ---- array leaf
+//@ # element section: 3 bytes of array head, then every element's own bytes
+//@ func (a *ArrayDataSlab) encodeElements(enc) (err)  serves C06
+//@   requires encWF(enc) && len(a.elements) <= 65535 && (forall k :: 0 <= k && k < len(a.elements) ==> a.elements[k] != nil)
+//@   ensures[C06] err == nil ==> wc[enc.Writer] == old(wc)[enc.Writer] + 3 + sum(bs, a.elements, len(a.elements))
+//@   ensures (forall w ref :: w != enc.Writer ==> wc[w] == old(wc)[w])
+//@   modifies Encoder.Scratch, Encoder._inlinedExtraData, InlinedExtraData.*, ghost.wc, alloc
+//@   loop 1: invariant 0 <= i && i <= len(a.elements) && wc[enc.Writer] == old(wc)[enc.Writer] + 3 + sum(bs, a.elements, i) && (forall w ref :: w != enc.Writer ==> wc[w] == old(wc)[w])
+
+//@ # standalone leaf: 2 (head) + [16 sibling link] + 3 + elements; the reported size counts the sibling link always (an empty link is
+//@ # omitted from the bytes: the documented 16-byte saving), and not the extra-data sections
+//@ func (a *ArrayDataSlab) Encode@bytes(enc) (err)  serves C06
+//@   requires encWF(enc) && enc.encMode != nil && !a.inlined && wfADS(a) && len(a.elements) <= 65535
+//@   assume a.extraData != nil ==> a.next == SlabIDUndefined because "tree invariant: a root leaf has no sibling (C01)"
+//@   ensures[C06] err == nil ==> written(enc) == a.header.size - ite(a.extraData == nil && a.next == SlabIDUndefined, 16, 0)
+//@   modifies heap, ghost.wc, ghost.xbytes, alloc
+
+//@ extern bytes.Buffer.Reset()
+//@   ghostdef wc == upd(old(wc), iface(recv), 0)
+//@   modifies ghost.wc
